@@ -107,7 +107,7 @@ impl Prop for C19 {
     const RULE: &'static str = "bit sequences by regime x histories of 0..12 steps over {enable_rank, enable_select, enable_select_zero, enable_pred_succ, serialize+load, clone}: after every step supports_* equals the model set (supports_pred_succ <=> rank and select), the raw bits are unchanged, every enabled query is correct, load reports exactly the written subset and an equal value; finally enabling the rest gives a value == a fresh vector with everything enabled (any order, repeated enables). Composite structures (sparse vector, wavelet matrix and core, bitvectors) re-encoded with all embedded supports stripped must load == the original and answer the same query plan. Option<any value> ++ marker: skip_option leaves the reader exactly at the marker (also with short reads), absent_option writes one zero element that loads as None, absent_option_size() == 1. Non-trivial: a load with a proper non-empty support subset followed by an enable; distinct by (bits, history).";
 
     fn cases(tier: Tier) -> u32 {
-        tier.pick(8000, 80_000)
+        tier.pick(60_000, 400_000)
     }
 
     fn strategy(tier: Tier, _cfg: &str) -> BoxedStrategy<Case> {
